@@ -222,6 +222,64 @@ fn check_source(cfg: &Cfg, hl: &mut Highlighter, parent_lang: &tree_sitter::Lang
     }
 }
 
+// ---- the C interface (ts_highlighter_*): one TSHighlighter and ONE output buffer reused across all documents ---------------
+/// Every document goes through `ts_highlighter_highlight` into the same `TSHighlightBuffer`; what the buffer then holds
+/// (content, length, line offsets) must equal what the Rust path (`Highlighter` + `HtmlRenderer` with the same attribute
+/// strings) produces for that document alone. After every document the empty document is rendered into the same buffer too.
+fn check_c_api(ctx: &Ctx, stmts: &tree_sitter::Language, docs: &[Vec<u8>], idx: &mut usize, res: &mut ShardResult) {
+    use std::ffi::CString;
+    use tree_sitter_highlight::c as capi;
+    let nm = names(0);
+    let name_c: Vec<CString> = nm.iter().map(|n| CString::new(*n).unwrap()).collect();
+    let attr_c: Vec<CString> = nm.iter().map(|n| CString::new(format!("class=\"{}\"", n)).unwrap()).collect();
+    let name_p: Vec<*const std::os::raw::c_char> = name_c.iter().map(|c| c.as_ptr()).collect();
+    let attr_p: Vec<*const std::os::raw::c_char> = attr_c.iter().map(|c| c.as_ptr()).collect();
+    let (lang_name, scope) = (CString::new("stmts").unwrap(), CString::new("source.stmts").unwrap());
+    let mut cfg = HighlightConfiguration::new(stmts.clone(), "stmts", STMTS_HL, "", STMTS_LOCALS).expect("stmts highlight config");
+    cfg.configure(&nm);
+    unsafe {
+        let h = capi::ts_highlighter_new(name_p.as_ptr(), attr_p.as_ptr(), nm.len() as u32);
+        let rc = capi::ts_highlighter_add_language(h, lang_name.as_ptr(), scope.as_ptr(), std::ptr::null(), stmts.clone(), STMTS_HL.as_ptr().cast(), std::ptr::null(), STMTS_LOCALS.as_ptr().cast(), STMTS_HL.len() as u32, 0, STMTS_LOCALS.len() as u32);
+        if !matches!(rc, capi::ErrorCode::Ok) { res.violation("ENGINE-c-api-add-language", "ts_highlighter_add_language failed".into(), json!({})); return; }
+        let buf = capi::ts_highlight_buffer_new();
+        let mut rust_hl = Highlighter::new();
+        let empty: Vec<u8> = vec![];
+        for d in docs {
+            *idx += 1;
+            if !ctx.mine(*idx) { continue; }
+            for src in [d, &empty] {
+                crate::case!("{}", case_json("stmts-c-api", 0, src));
+                res.transitions += 1;
+                let rc = capi::ts_highlighter_highlight(h, scope.as_ptr(), src.as_ptr().cast(), src.len() as u32, buf, std::ptr::null());
+                let len = capi::ts_highlight_buffer_len(buf) as usize;
+                let got: Vec<u8> = if len == 0 { vec![] } else { std::slice::from_raw_parts(capi::ts_highlight_buffer_content(buf), len).to_vec() };
+                let nlines = capi::ts_highlight_buffer_line_count(buf) as usize;
+                let offs: Vec<u32> = if nlines == 0 { vec![] } else { std::slice::from_raw_parts(capi::ts_highlight_buffer_line_offsets(buf), nlines).to_vec() };
+                // the Rust path for this document alone
+                let mut r = HtmlRenderer::new();
+                let want = match rust_hl.highlight(&cfg, src, None, None, |_| None) {
+                    Ok(it) => { let attrs: Vec<Vec<u8>> = nm.iter().map(|n| format!("class=\"{}\"", n).into_bytes()).collect(); if r.render(it, src, &|hh: Highlight, out: &mut Vec<u8>| out.extend_from_slice(&attrs[hh.0])).is_ok() { Some((r.html.clone(), r.line_offsets.clone())) } else { None } }
+                    Err(_) => None,
+                };
+                match (matches!(rc, capi::ErrorCode::Ok), want) {
+                    (true, Some((html, lines))) => {
+                        if got != html || offs != lines {
+                            res.violation("c-api-buffer-differs-from-rust-rendering", format!("source {:?}: buffer holds {:?} (line offsets {:?}), the Rust renderer gives {:?} ({:?})", String::from_utf8_lossy(src), String::from_utf8_lossy(&got), offs, String::from_utf8_lossy(&html), lines), case_json("stmts-c-api", 0, src));
+                        }
+                        if !got.is_empty() { res.nontrivial += 1; }
+                    }
+                    (false, None) => {}
+                    (ok, w) => res.violation("c-api-status-differs-from-rust", format!("source {:?}: C API ok={} but the Rust path {}", String::from_utf8_lossy(src), ok, if w.is_some() { "renders" } else { "fails" }), case_json("stmts-c-api", 0, src)),
+                }
+                if res.too_many() { break; }
+            }
+            res.states += 1;
+        }
+        capi::ts_highlight_buffer_delete(buf);
+        capi::ts_highlighter_delete(h);
+    }
+}
+
 // ---- three layers: tmpl -> (all text chunks combined) arith -> (each parenthesised group, children included) stmts ----------
 // The arith layer has several included ranges (the text chunks); a paren node that starts in one chunk and ends in a later
 // one spans the directive between them, and the stmts layer injected for it must still stay inside the text chunks.
@@ -314,6 +372,12 @@ pub fn worker(ctx: &Ctx, res: &mut ShardResult) {
     let mut idx = 0usize;
     let mut hl = Highlighter::new();
     let inj_variants = INJ_VARIANTS;
+    {
+        let mut docs = crate::docs::docs(&stmts_z, k);
+        docs.extend(byte_atom_strings(3));
+        check_c_api(ctx, &stmts.language, &docs, &mut idx, res);
+        if res.too_many() { return; }
+    }
     for variant in 0..5usize {
         let nm = names(variant);
         let mut cfgs: Vec<(Cfg, tree_sitter::Language, Vec<Vec<u8>>)> = vec![];
@@ -387,6 +451,11 @@ pub fn replay(case: &Value) -> Vec<String> {
         let n = make_nested(variant, &stmts.language, &arith.language, &tmpl_lang);
         print_events(&n.main, Some(&n.arith), Some(&n.stmts));
         check_nested(&n, &mut hl, &tmpl_lang, variant, &src, &mut res);
+    } else if cfg_name == "stmts-c-api" {
+        // the recorded document is rendered into a buffer that held another document before (and the empty one after it)
+        let ctx = Ctx { id: "C17".into(), tier: "quick".into(), seed: 0, shard: 0, nshards: 1, deadline: std::time::Instant::now() + std::time::Duration::from_secs(600) };
+        let mut idx = 0usize;
+        check_c_api(&ctx, &stmts.language, &[b"let a = 1;\nb;\n".to_vec(), src.clone()], &mut idx, &mut res);
     } else if cfg_name == "stmts" {
         let mut main = HighlightConfiguration::new(stmts.language.clone(), "stmts", STMTS_HL, "", STMTS_LOCALS).expect("stmts highlight config");
         main.configure(&nm);
